@@ -405,6 +405,54 @@ func runC02(c *Ctx) {
 	r6 := c.Rule("R6", "no dirty reads through the node cache: the host-wide L1 cache stores clones and hands out materialised copies only, so one transaction's uncommitted node edits cannot be read by another (shared with C38.R2/R3)", 3)
 	l1IsolationRules(c, r6, r6)
 
+	r7 := c.Rule("R7", "what the commit-time merge replays is what the caller did: the item RemoveCurrentItem registers with ItemActionTracker.Remove is the item that was at the cursor when the call began - every definition of the registered variable reads the current item's slot before the cursor is moved to the leaf successor (moveToNext); a definition after that registers the successor's removal instead", 2)
+	{
+		f := w.Fn("btree.Btree.RemoveCurrentItem")
+		g := w.G(f)
+		c.Analysed(f)
+		info := f.Pkg.TypesInfo
+		tracked := map[types.Object]bool{}
+		nReg := 0
+		for _, nc := range g.callNodes("btree.ItemActionTracker.Remove") {
+			nReg++
+			for _, a := range nc.cs.Call.Args {
+				ast.Inspect(a, func(x ast.Node) bool {
+					if id, ok := x.(*ast.Ident); ok {
+						if v, ok := info.Uses[id].(*types.Var); ok && !v.IsField() && v.Parent() != v.Pkg().Scope() && id.Name != "ctx" {
+							tracked[v] = true
+						}
+					}
+					return true
+				})
+			}
+		}
+		c.Check(nReg >= 1 && len(tracked) >= 1, r7, "RemoveCurrentItem: registers the removal with the item action tracker", f.Decl.Pos(), fmt.Sprintf("%d registration(s)", nReg), "no ItemActionTracker.Remove call with a local item found", nil)
+		moved := g.Find(calls("btree.Node.moveToNext", "btree.Node.moveToPrevious"))
+		r := g.Reach(idsOf(moved), nil, nil)
+		var offs []Offence
+		for _, n := range g.Nodes {
+			if !r.Seen[n.ID] {
+				continue
+			}
+			isMove := false
+			for _, m := range moved {
+				if m == n {
+					isMove = true
+				}
+			}
+			if isMove {
+				continue
+			}
+			for v := range tracked {
+				if g.assignsObj(n, v) {
+					offs = append(offs, Offence{n, r.Path(n.ID)})
+				}
+			}
+		}
+		c.Offences(g, offs, r7, "RemoveCurrentItem: the registered item is not re-assigned after the cursor moved", f.Decl.Pos(), "the registered variable is defined from the slot at the cursor before moveToNext only",
+			"the variable handed to ItemActionTracker.Remove is assigned again after the cursor was moved to the leaf successor: removing an item that sits in an inner node records the SUCCESSOR's removal (and locks the successor's id); the first commit attempt writes the nodes as they are, but after a conflict the refetch-and-merge replays the tracker - the item really removed comes back and the successor disappears, with Commit returning nil")
+	}
+
 }
 
 func shortKey(k string) string {
